@@ -18,10 +18,17 @@
     `handleCallTool` adds the server (Streamable only: `serverProvider`) and the client session before the tool
     handler runs; prompt / resource handlers get the dispatch context unchanged.
 
+  * `streamable_server.go handlePost` (stateful mode): `session, ok = h.sessionManager.getSession(<the request's own
+    Mcp-Session-Id header>)` → `session.go sessionManagerAdapter.getSession` = `a.manager.GetSession(id)` →
+    `internal/session SessionManager.GetSession`: ONE read of the id-keyed map under the manager's lock.  The session
+    found is what `handlePostRequest` / `handlePostNotification` put into the context.  Legacy SSE:
+    `getSessionFromRequest` = one `sync.Map` Load under the POST's own `sessionId` parameter.
+
   Each request is a thread with LOCAL state (its remaining instructions, its context, what its stages observed, its
   list answer).  The only shared state is the registry — plus, in the regions of the fact family that today's
-  code is NOT in, a server-level slot the enriched context is parked in (`Facts.sharedSlot`) and a cache of the
-  filtered list (`Facts.listCache`).  Atomic steps of different threads interleave arbitrarily (`run`).
+  code is NOT in, a server-level slot the enriched context is parked in (`Facts.sharedSlot`), a cache of the
+  filtered list (`Facts.listCache`) and a lock-free one-entry "last lookup" cache in front of the session manager
+  whose id and session are two separately published words (`Facts.lookupCache`).  Atomic steps of different threads interleave arbitrarily (`run`).
 
   Labelled PARTIAL: the model knows the library's own data flow only.  A context aliased through user code (a
   context function that stores what it is given in a global, a handler that leaks its context to another
@@ -133,6 +140,10 @@ structure Facts where
   /-- a list handler keeps list memory across requests: it writes server-level state (a cached filter result), hands
       the filter a snapshot that is not made for this call, or builds its result in pooled memory -/
   listCache : Bool
+  /-- the session lookup is NOT a single keyed read of the registry under its lock / under the request's own id:
+      something remembers a lookup outside the registry (modelled: a one-entry cache `lastId`, `lastSess`, read and
+      published word by word without a lock, in front of the stateful Streamable lookup) -/
+  lookupCache : Bool
   deriving Repr, DecidableEq
 
 inductive Stage
@@ -149,6 +160,9 @@ inductive Instr
   | fn (f : CtxFn)   -- one context function applied to this request
   | park             -- sharedSlot region: the enriched context is written to the server-level slot …
   | unpark           -- … and read back from there
+  | lookId           -- lookupCache region: compare the request's session id with the remembered id …
+  | lookSess         -- … hit: take the remembered session; miss: look up in the registry and remember the session …
+  | publish          -- … miss: remember the id (a separate word, published after the session)
   | inject           -- sender / session / server / client session, as the transport does it
   | mw (id : Nat)    -- a middleware looks at its context
   | dispatch         -- the method: the list filter or the handler looks at its context; list answer
@@ -159,13 +173,26 @@ structure Loc where
   ctx : Ctx := {}
   obs : List Obs := []
   resp : Option (List Text) := none
+  /-- lookupCache region: the id comparison hit -/
+  hit : Bool := false
+  /-- the session the lookup resolved when it is NOT the registry's entry for the request's own id -/
+  sess : Option Text := none
   deriving Repr, DecidableEq
 
 structure Shared where
   reg : Registry
   slot : Option Ctx := none
   cache : List (Method × List Text) := []
+  /-- lookupCache region: the remembered id and — a separate word — the remembered session -/
+  lastId : Option Text := none
+  lastSess : Option Text := none
   deriving Repr, DecidableEq
+
+/-- The request as the transport sees it after the lookup: processed with the session the lookup resolved. -/
+def effReq (req : Req) (loc : Loc) : Req :=
+  match loc.sess with
+  | some s => { req with sid := s }
+  | none => req
 
 def senderOf (req : Req) (sid : Text) : Sender := if req.acceptSSE then .sse sid else .noop
 
@@ -215,7 +242,7 @@ def dispatch (F : Facts) (cfg : Cfg) (req : Req) (s : Shared × Loc) : Shared ×
         ({ s.1 with cache := (req.method, filterNames cfg s.2.ctx es) :: s.1.cache },
          { s.2 with obs := s.2.obs ++ [⟨.filter, s.2.ctx⟩], resp := some (filterNames cfg s.2.ctx es) })
     else (s.1, { s.2 with obs := s.2.obs ++ [⟨.filter, s.2.ctx⟩], resp := some (filterNames cfg s.2.ctx es) })
-  | none => (s.1, { s.2 with obs := s.2.obs ++ handlerObs cfg.mode req s.2.ctx })
+  | none => (s.1, { s.2 with obs := s.2.obs ++ handlerObs cfg.mode (effReq req s.2) s.2.ctx })
 
 /-- One atomic step of a request thread. -/
 def execInstr (F : Facts) (cfg : Cfg) (req : Req) (i : Instr) (s : Shared × Loc) : Shared × Loc :=
@@ -223,7 +250,27 @@ def execInstr (F : Facts) (cfg : Cfg) (req : Req) (i : Instr) (s : Shared × Loc
   | .fn f => (s.1, { s.2 with ctx := f.apply req.hdrs s.2.ctx })
   | .park => if F.sharedSlot then ({ s.1 with slot := some s.2.ctx }, s.2) else s
   | .unpark => if F.sharedSlot then (s.1, { s.2 with ctx := s.1.slot.getD s.2.ctx }) else s
-  | .inject => (s.1, { s.2 with ctx := inject cfg.mode req s.2.ctx })
+  | .lookId =>
+    if F.lookupCache then
+      match cfg.mode with
+      | .stateful => (s.1, { s.2 with hit := s.1.lastId == some req.sid })
+      | _ => s
+    else s
+  | .lookSess =>
+    if F.lookupCache then
+      match cfg.mode with
+      | .stateful =>
+        if s.2.hit then (s.1, { s.2 with sess := s.1.lastSess })
+        else ({ s.1 with lastSess := some req.sid }, s.2)
+      | _ => s
+    else s
+  | .publish =>
+    if F.lookupCache then
+      match cfg.mode with
+      | .stateful => if s.2.hit then s else ({ s.1 with lastId := some req.sid }, s.2)
+      | _ => s
+    else s
+  | .inject => (s.1, { s.2 with ctx := inject cfg.mode (effReq req s.2) s.2.ctx })
   | .mw id => (s.1, { s.2 with obs := s.2.obs ++ [⟨.mw id, s.2.ctx⟩] })
   | .dispatch => dispatch F cfg req s
 
@@ -236,7 +283,7 @@ def effFns (F : Facts) (cfg : Cfg) : List CtxFn :=
 
 /-- The program of one request. Notifications bypass the middlewares. -/
 def prog (F : Facts) (cfg : Cfg) (req : Req) : List Instr :=
-  (effFns F cfg).map .fn ++ [.park, .unpark, .inject] ++
+  (effFns F cfg).map .fn ++ [.lookId, .lookSess, .publish, .park, .unpark, .inject] ++
     (if req.method = .notify then [] else cfg.mws.map .mw) ++ [.dispatch]
 
 /-- Big-step execution of an instruction list. -/
@@ -293,6 +340,8 @@ def initState (F : Facts) (cfg : Cfg) (reg : Registry) (reqs : Nat → Req) : St
     * `SSEServer.sessions` (handleSSE): the session registry, keyed by session id; a POST finds its session through
       its own `sessionId` query parameter;
     * `stdioTransport.session`: the single session of a stdio server (one client per process);
+    (values of the library's internal packages are typed for real: a `*session.Session` kept anywhere in package mcp
+    — e.g. in an `atomic.Value` remembering the last lookup — is a store of kind session and is NOT on this list)
     * client side: `sseClientTransport.sseConn.ctx`, `streamableHTTPClientTransport.getSSEConn.ctx` (the stream of
       that client), `stdioClientTransport.ctx` (the child process's lifetime). -/
 def allowedStores : List (Text × Text) := [
@@ -313,6 +362,15 @@ def knownCarriers : List Text := [
 
 def carrierKnown (f : Text × Text) : Bool := knownCarriers.contains f.1
 
+/-- What `Gen.cfSessionLookups` must read: every step from "the id the request carries" to "the session object in
+    its context" is a single keyed read of the session registry (under the manager's lock / one `sync.Map` Load),
+    keyed by the request's OWN id, and nothing remembers a lookup outside the registry. -/
+def expectedLookups : List (Text × Text) := [
+  (t!"SSEServer.getSessionFromRequest", t!"keyed-load"),
+  (t!"httpServerHandler.handlePost", t!"own-header"),
+  (t!"session.SessionManager.GetSession", t!"guarded-map-read"),
+  (t!"sessionManagerAdapter.getSession", t!"delegates")]
+
 /-- A context argument is fine when it is the function's own parameter, derived from it, or the request's own. -/
 def argOk (a : Text × Text × Text × Text) : Bool :=
   a.2.2.2 == t!"param" || a.2.2.2 == t!"derived" || a.2.2.2 == t!"request"
@@ -327,12 +385,13 @@ def codeFacts : Facts :=
   { foldAscending := Mcp.Gen.cfPostFoldAscending
     sharedSlot := !(Mcp.Gen.cfStores.all storeAllowed && Mcp.Gen.cfCtxArgs.all argOk)
     listCache := !(Mcp.Gen.cfListFieldWrites.isEmpty && Mcp.Gen.cfListPoolUses.isEmpty &&
-      Mcp.Gen.cfListSnapshots.all listFactFresh && Mcp.Gen.cfListResults.all listFactFresh) }
+      Mcp.Gen.cfListSnapshots.all listFactFresh && Mcp.Gen.cfListResults.all listFactFresh)
+    lookupCache := !(Mcp.Gen.cfSessionLookups == expectedLookups) }
 
 /-! ### Vocabulary of the property theorems (`Mcp.Props.C13`) -/
 
 /-- The region today's code is in: nothing request-scoped is parked in server-level state. -/
-def Good (F : Facts) : Prop := F.sharedSlot = false ∧ F.listCache = false
+def Good (F : Facts) : Prop := F.sharedSlot = false ∧ F.listCache = false ∧ F.lookupCache = false
 
 /-- The context every stage of the request starts from: the fold of the effective context functions over the
     request's OWN headers, then the transport's injection for the request's OWN session. -/
